@@ -1,98 +1,346 @@
-(* C15: replay the harness trace through the extracted Gallina model of toposort.go *)
+(* C15: replay the harness trace through the extracted Gallina model of toposort.go.
+
+   Nodes are integers in the trace.  When the case carries a name table (names (bytes) (bytes) ...), the
+   strings the Go code saw are those names and the model is run on the RANK of each name in plain byte
+   order (the order sort.Strings implements; the proofs are about integer node ids with < standing for it).
+   Everything below the parsing works on ranks; messages show the trace's node indices again.
+
+   Two judges:
+   * the extracted model + extracted oracles (wfb, cycle_ok), for every case with at most
+     VERIF_C15_MODEL_LIMIT primitive operations (the model's association lists are quadratic);
+   * an independent linear-time oracle on a mirror of the graph (hash tables): order validity, acyclicity by
+     Kahn counting, cycle validity, existence of a cycle through the seed by reachability.  It judges the
+     scale family beyond the model's reach, and on every smaller case it is cross-checked against the
+     extracted oracles (a disagreement is reported as a MISMATCH: one of the two is wrong). *)
 open C15_model
 open Conv
 
-let op_of_sx (s : sx) : op =
-  let z i = z_of_int (int_of_sx (List.nth (args s) i)) in
-  match tag s with
-  | "addnode" -> OAddNode (z 0)
-  | "addedge" -> OAddEdge (z 0, z 1)
-  | "rmedge" -> ORemoveEdge (z 0, z 1)
-  | "reindex" -> OReindex (z 0)
-  | "sort" -> OSort
-  | "children" -> OChildren (z 0)
-  | "parents" -> OParents (z 0)
-  | "cycle" -> OCycle (z 0)
-  | t -> failwith ("unknown op " ^ t)
+let model_limit = try int_of_string (Sys.getenv "VERIF_C15_MODEL_LIMIT") with _ -> 2500
 
-let show_ints l = "[" ^ String.concat ";" (List.map string_of_int l) ^ "]"
+(* ---------- tail-recursive helpers (cases have up to 10^6 elements) ---------- *)
+let map_tr f l = List.rev (List.rev_map f l)
+let ints_tr s = map_tr int_of_sx (list_of_sx s)
 
-(* the property oracle for a successful sort, independent of the model's own answer:
-   a permutation of the node set in which every edge points forward *)
-let order_ok (nodes : int list) (edges : (int * int) list) (l : int list) : bool =
-  List.sort compare l = List.sort compare nodes &&
-  (let pos = Hashtbl.create 16 in
-   List.iteri (fun i n -> Hashtbl.replace pos n i) l;
-   List.for_all (fun (a, b) -> Hashtbl.mem pos a && Hashtbl.mem pos b && Hashtbl.find pos a < Hashtbl.find pos b) edges)
+(* ---------- names ---------- *)
+let string_of_bytes (s : sx) : string =
+  let l = list_of_sx s in
+  let b = Bytes.create (List.length l) in
+  List.iteri (fun i x -> Bytes.set b i (Char.chr (int_of_sx x land 255))) l;
+  Bytes.to_string b
 
+(* primitive operations in rank space *)
+type prim = PAddNode of int | PAddEdge of int * int | PRmEdge of int * int | PReindex of int
+
+let wrap v m = if m > 0 then v mod m else v
+
+(* ---------- the independent mirror ---------- *)
+type mirror = {
+  nodes : (int, unit) Hashtbl.t;
+  edges : (int * int, unit) Hashtbl.t;          (* exactly the pairs (a, b) with b a key of outputs[a] *)
+  dirty : (int, unit) Hashtbl.t;                (* lost an edge, not re-indexed since *)
+  mutable valid : bool;                         (* every operation so far satisfied valid_ops (Reach.v) *)
+  mutable adj : (int, int list) Hashtbl.t option; (* adjacency, rebuilt lazily after a mutation *)
+}
+
+let mirror_new () = { nodes = Hashtbl.create 64; edges = Hashtbl.create 64; dirty = Hashtbl.create 8; valid = true; adj = None }
+
+let mirror_apply (m : mirror) (p : prim) =
+  m.adj <- None;
+  match p with
+  | PAddNode a -> if a < 0 then m.valid <- false; if not (Hashtbl.mem m.nodes a) then Hashtbl.replace m.nodes a ()
+  | PAddEdge (a, b) ->
+      (* op_ok (Reach.v): b is a node and a -> b is not yet an edge (also when a is unknown and the call is a no-op) *)
+      if not (Hashtbl.mem m.nodes b) || Hashtbl.mem m.edges (a, b) then m.valid <- false;
+      if Hashtbl.mem m.nodes a then Hashtbl.replace m.edges (a, b) ()
+  | PRmEdge (a, b) ->
+      if not (Hashtbl.mem m.edges (a, b)) then m.valid <- false;
+      if Hashtbl.mem m.nodes a then begin Hashtbl.remove m.edges (a, b); Hashtbl.replace m.dirty a () end
+  | PReindex a -> Hashtbl.remove m.dirty a
+
+let mirror_adj (m : mirror) : (int, int list) Hashtbl.t =
+  match m.adj with
+  | Some a -> a
+  | None ->
+      let a = Hashtbl.create (2 * Hashtbl.length m.nodes + 1) in
+      Hashtbl.iter (fun (x, y) () -> Hashtbl.replace a x (y :: (try Hashtbl.find a x with Not_found -> []))) m.edges;
+      m.adj <- Some a; a
+
+let succs adj x = try Hashtbl.find adj x with Not_found -> []
+
+(* Kahn counting: acyclic iff every node can be removed *)
+let mirror_acyclic (m : mirror) : bool =
+  let adj = mirror_adj m in
+  let indeg = Hashtbl.create (2 * Hashtbl.length m.nodes + 1) in
+  Hashtbl.iter (fun n () -> Hashtbl.replace indeg n 0) m.nodes;
+  Hashtbl.iter (fun (_, y) () -> Hashtbl.replace indeg y (1 + try Hashtbl.find indeg y with Not_found -> 0)) m.edges;
+  let q = Queue.create () in
+  Hashtbl.iter (fun n d -> if d = 0 then Queue.add n q) indeg;
+  let removed = ref 0 in
+  while not (Queue.is_empty q) do
+    let n = Queue.pop q in
+    incr removed;
+    List.iter (fun y -> let d = Hashtbl.find indeg y - 1 in Hashtbl.replace indeg y d; if d = 0 then Queue.add y q) (succs adj n)
+  done;
+  !removed = Hashtbl.length indeg
+
+(* a permutation of the node set in which every edge points forward *)
+let order_ok_sets (nnodes : int) (is_node : int -> bool) (iter_edges : (int -> int -> unit) -> unit) (l : int list) : bool =
+  let pos = Hashtbl.create (2 * nnodes + 1) in
+  let ok = ref true in
+  List.iteri (fun i n -> if Hashtbl.mem pos n || not (is_node n) then ok := false; Hashtbl.replace pos n i) l;
+  if Hashtbl.length pos <> nnodes then ok := false;
+  if !ok then iter_edges (fun a b ->
+    match Hashtbl.find_opt pos a, Hashtbl.find_opt pos b with
+    | Some i, Some j when i < j -> ()
+    | _ -> ok := false);
+  !ok
+
+let mirror_order_ok (m : mirror) (l : int list) : bool =
+  order_ok_sets (Hashtbl.length m.nodes) (Hashtbl.mem m.nodes) (fun f -> Hashtbl.iter (fun (a, b) () -> f a b) m.edges) l
+
+(* c = seed :: r with edges seed -> r1 -> ... -> rk -> seed *)
+let mirror_cycle_ok (m : mirror) (seed : int) (c : int list) : bool =
+  match c with
+  | x :: r when x = seed ->
+      let rec go prev = function
+        | [] -> Hashtbl.mem m.edges (prev, seed)
+        | y :: r' -> Hashtbl.mem m.edges (prev, y) && go y r' in
+      go x r
+  | _ -> false
+
+(* is the seed reachable from one of its children? *)
+let mirror_cycle_exists (m : mirror) (seed : int) : bool =
+  let adj = mirror_adj m in
+  let seen = Hashtbl.create 64 in
+  let q = Queue.create () in
+  let found = ref false in
+  List.iter (fun y -> Queue.add y q) (succs adj seed);
+  while not !found && not (Queue.is_empty q) do
+    let n = Queue.pop q in
+    if n = seed then found := true
+    else if not (Hashtbl.mem seen n) then begin
+      Hashtbl.replace seen n ();
+      List.iter (fun y -> Queue.add y q) (succs adj n)
+    end
+  done;
+  !found
+
+(* ---------- one case ---------- *)
 let () =
   iter_cases (fun id c ->
-    let ops = List.map op_of_sx (args (field "ops" c)) in
-    let obs = args (field "obs" c) in
-    if List.length ops <> List.length obs then failwith "ops/obs length";
-    (* step the model one operation at a time to have the state at every query *)
+    (* names -> ranks *)
+    let to_rank, of_rank, names_txt =
+      match field_opt "names" c with
+      | None -> (fun i -> i), (fun r -> r), ""
+      | Some f ->
+          let tab = Array.of_list (List.map string_of_bytes (args f)) in
+          let n = Array.length tab in
+          let idx = Array.init n (fun i -> i) in
+          Array.stable_sort (fun i j -> compare tab.(i) tab.(j)) idx;   (* String compare = byte order *)
+          let rk = Array.make n 0 in
+          Array.iteri (fun r i -> rk.(i) <- r) idx;
+          Array.iteri (fun r i -> if r > 0 && tab.(idx.(r - 1)) = tab.(i) then failwith "duplicate name in the table") idx;
+          Array.iter (fun s -> if s = "" then failwith "empty name in the table") tab;
+          let shown = Buffer.create 64 in
+          Array.iteri (fun i s -> if Buffer.length shown < 600 then Buffer.add_string shown
+            (let e = String.escaped s in Printf.sprintf " %d=\"%s\"" i (if String.length e > 60 then String.sub e 0 60 ^ "..." else e))) tab;
+          (fun i -> if i < 0 then i else if i >= n then failwith "node index outside the name table" else rk.(i)),
+          (fun r -> if r < 0 || r >= n then r else idx.(r)),
+          " names:" ^ Buffer.contents shown in
+    let show_r l = "[" ^ String.concat ";" (List.map (fun r -> string_of_int (of_rank r)) (if List.length l > 40 then List.filteri (fun i _ -> i < 40) l else l))
+                   ^ (if List.length l > 40 then Printf.sprintf ";...(%d)" (List.length l) else "") ^ "]" in
+    let ops_sx = Array.of_list (args (field "ops" c)) in
+    let obs = Array.of_list (args (field "obs" c)) in
+    if Array.length ops_sx <> Array.length obs then failwith "ops/obs length";
+    let arg s i = int_of_sx (List.nth (args s) i) in
+    let bulk_count s = match tag s with
+      | "addnodes" | "reindexes" -> arg s 1
+      | "addedges" | "rmedges" -> arg s 2
+      | _ -> 1 in
+    let total = Array.fold_left (fun acc s -> acc + bulk_count s) 0 ops_sx in
+    let use_model = total <= model_limit in
+    count (if use_model then "cases_model" else "cases_oracle_only");
     let st = ref empty in
-    List.iteri (fun i (o, ob) ->
-      let (st', outs) = run !st [o] in
-      let out = List.hd outs in
-      let here = Printf.sprintf "op#%d %s" i (string_of_sx (List.nth (args (field "ops" c)) i)) in
-      (match out, tag ob with
-       | RBool b, "b" -> if b <> bool_of_sx (List.hd (args ob)) then mismatch id (here ^ " bool")
-       | RInt z, "i" -> if int_of_z z <> int_of_sx (List.hd (args ob)) then mismatch id (here ^ " int")
-       | RUnit, "u" -> ()
-       | RList l, "l" ->
-           if List.map int_of_z l <> ints_of_sx (List.hd (args ob)) then
-             mismatch id (here ^ " list model=" ^ show_ints (List.map int_of_z l))
-       | RSort r, ("sorted" | "panic" | "nondet") when not (wfb !st) ->
-           (* outside the property's domain (duplicate edges, unknown endpoints, missing re-index):
-              only the correspondence with the model is checked *)
-           count "sorts_outside_domain";
-           (match r, tag ob with
-            | SortUnspec, _ -> count "sort_unspec"
-            | SortPanic, "panic" -> count "sort_panic"
-            | SortOk (ml, mok), "sorted" ->
-                if bool_of_sx (List.nth (args ob) 0) <> mok || ints_of_sx (List.nth (args ob) 1) <> List.map int_of_z ml
-                then mismatch id (here ^ " (outside domain) result differs: " ^ string_of_sx ob)
-            | _, "nondet" -> count "sort_nondet_outside_domain"
-            | _ -> mismatch id (here ^ " (outside domain) result kind differs: " ^ string_of_sx ob))
-       | RCycleEmpty _, "cycle" when is_node !st nobody ->
-           (* the empty name is FindCycle's sentinel; a graph that has it as a node is outside the domain *)
-           count "cycles_outside_domain"
-       | RSort r, ("sorted" | "panic" | "nondet") ->
-           count "sorts";
-           (* node and edge sets of the current model state, for the oracle *)
-           let nodes = List.map (fun (n, _) -> int_of_z n) !st.outs in
-           let edges = List.concat_map (fun (n, m) -> List.map (fun (ch, _) -> (int_of_z n, int_of_z ch)) m) !st.outs in
-           (match r, tag ob with
-            | SortOk _, "nondet" -> propfail id (here ^ " Toposort answers differ between runs on equal graphs: " ^ string_of_sx ob)
-            | SortOk _, "panic" -> propfail id (here ^ " Toposort panics on a graph of the domain")
-            | (SortUnspec | SortPanic | SortFuel), _ ->
-                (* impossible by C15_refines_kahn (wfb holds here) *)
-                mismatch id (here ^ " model result is not SortOk inside the domain")
-            | SortOk (ml, mok), _ ->
-                let gok = bool_of_sx (List.nth (args ob) 0) in
-                let gl = ints_of_sx (List.nth (args ob) 1) in
-                let ml = List.map int_of_z ml in
-                if gok then count "sort_success" else count "sort_failure";
-                (* coarse: property *)
-                if gok && not (order_ok nodes edges gl) then
-                  propfail id (here ^ " success reported but the order is not a topological order of all nodes: " ^ show_ints gl)
-                else if gok <> mok then
-                  propfail id (here ^ Printf.sprintf " success=%b but the graph is %s" gok (if mok then "acyclic" else "cyclic"))
-                (* fine: the deterministic order *)
-                else if gl <> ml then mismatch id (here ^ " order differs: impl=" ^ show_ints gl ^ " model=" ^ show_ints ml))
-       | RCycleEmpty e, "cycle" ->
-           (* C15_cycle_real / C15_cycle_found / C15_cycle_emptiness_any_order hold for every state in which
-              the empty name is not a node (no rank condition), so the oracle is applied there *)
-           count (if wfb !st then "cycles" else "cycles_dirty_state");
-           let gc = ints_of_sx (List.hd (args ob)) in
-           let seed = (match o with OCycle s -> s | _ -> failwith "cycle op") in
-           if gc <> [] then begin
-             count "cycle_nonempty";
-             if not (cycle_ok !st seed (List.map z_of_int gc)) then
-               propfail id (here ^ " FindCycle returned something that is not a cycle through the seed: " ^ show_ints gc)
-             else if e then mismatch id (here ^ " model finds no cycle through the seed but the implementation returned a valid one (contradicts C15_cycle_emptiness_any_order: model unfaithful)")
-           end else if not e then
-             propfail id (here ^ " a cycle through the seed exists but FindCycle returned nothing")
-       | _ -> mismatch id (here ^ " observation shape " ^ string_of_sx ob));
-      st := st') (List.combine ops obs))
+    let mir = mirror_new () in
+    let z r = z_of_int r in
+    (* one primitive mutating operation on both sides; returns the model's output when the model runs *)
+    let wfb_cache = ref None in
+    let wfb_now () = match !wfb_cache with Some b -> b | None -> let b = wfb !st in wfb_cache := Some b; b in
+    let prim (p : prim) : out option =
+      mirror_apply mir p; wfb_cache := None;
+      if use_model then begin
+        let o = match p with
+          | PAddNode a -> OAddNode (z a) | PAddEdge (a, b) -> OAddEdge (z a, z b)
+          | PRmEdge (a, b) -> ORemoveEdge (z a, z b) | PReindex a -> OReindex (z a) in
+        let (st', outs) = run !st [o] in
+        st := st'; Some (List.hd outs)
+      end else None in
+    let query (o : op) : out option =
+      if use_model then Some (List.hd (snd (run !st [o]))) else None in
+    Array.iteri (fun i s ->
+      let ob = obs.(i) in
+      let here () = Printf.sprintf "op#%d %s" i (string_of_sx s) in
+      let r k = to_rank (arg s k) in
+      let obs_int () = int_of_sx (List.hd (args ob)) in
+      let shape () = mismatch id (here () ^ " observation shape " ^ (let t = string_of_sx ob in if String.length t > 200 then String.sub t 0 200 else t)) in
+      match tag s with
+      | "addnode" ->
+          (match prim (PAddNode (r 0)), tag ob with
+           | Some (RBool b), "b" -> if b <> bool_of_sx (List.hd (args ob)) then mismatch id (here () ^ " bool")
+           | None, "b" -> ()
+           | _ -> shape ())
+      | "addedge" ->
+          (match prim (PAddEdge (r 0, r 1)), tag ob with
+           | Some (RInt v), "i" -> if int_of_z v <> obs_int () then mismatch id (here () ^ " int")
+           | None, "i" -> ()
+           | _ -> shape ())
+      | "rmedge" ->
+          (match prim (PRmEdge (r 0, r 1)), tag ob with
+           | Some (RBool b), "b" -> if b <> bool_of_sx (List.hd (args ob)) then mismatch id (here () ^ " bool")
+           | None, "b" -> ()
+           | _ -> shape ())
+      | "reindex" ->
+          (match prim (PReindex (r 0)), tag ob with
+           | (Some RUnit | None), "u" -> ()
+           | _ -> shape ())
+      | "addnodes" | "reindexes" ->
+          let from, cnt, step, md = arg s 0, arg s 1, arg s 2, arg s 3 in
+          let agg = ref 0 in
+          for k = 0 to cnt - 1 do
+            let a = to_rank (wrap (from + k * step) md) in
+            match prim (if tag s = "addnodes" then PAddNode a else PReindex a) with
+            | Some (RBool true) -> incr agg
+            | _ -> ()
+          done;
+          (match tag s, tag ob with
+           | "addnodes", "agg" -> if use_model && !agg <> obs_int () then mismatch id (here () ^ Printf.sprintf " number of new nodes: model=%d" !agg)
+           | "reindexes", "u" -> ()
+           | _ -> shape ())
+      | "addedges" | "rmedges" ->
+          let a0, b0, cnt, sa, sb, md = arg s 0, arg s 1, arg s 2, arg s 3, arg s 4, arg s 5 in
+          let agg = ref 0 in
+          for k = 0 to cnt - 1 do
+            let a = to_rank (wrap (a0 + k * sa) md) and b = to_rank (wrap (b0 + k * sb) md) in
+            match prim (if tag s = "addedges" then PAddEdge (a, b) else PRmEdge (a, b)) with
+            | Some (RInt v) -> agg := !agg + int_of_z v
+            | Some (RBool true) -> incr agg
+            | _ -> ()
+          done;
+          (match tag ob with
+           | "agg" -> if use_model && !agg <> obs_int () then mismatch id (here () ^ Printf.sprintf " aggregate of the results: model=%d" !agg)
+           | _ -> shape ())
+      | "children" | "parents" ->
+          (match query (if tag s = "children" then OChildren (z (r 0)) else OParents (z (r 0))), tag ob with
+           | Some (RList l), "l" ->
+               let gl = map_tr to_rank (ints_tr (List.hd (args ob))) in
+               (* children: sorted by NAME = ascending rank; parents: the harness sorted the node indices, compare as sets *)
+               let gl = if tag s = "parents" then List.sort compare gl else gl in
+               if List.map int_of_z l <> gl then mismatch id (here () ^ " list model=" ^ show_r (List.map int_of_z l) ^ " impl=" ^ show_r gl)
+           | None, "l" ->
+               (* independent: exactly the mirror's neighbours; children in ascending rank *)
+               let gl = map_tr to_rank (ints_tr (List.hd (args ob))) in
+               let want = Hashtbl.fold (fun (a, b) () acc -> if tag s = "children" then (if a = r 0 then b :: acc else acc)
+                                                            else (if b = r 0 then a :: acc else acc)) mir.edges [] in
+               let want = List.sort compare want in
+               let gl = if tag s = "parents" then List.sort compare gl else gl in
+               count "neighbour_lists_checked_by_mirror";
+               if want <> gl then mismatch id (here () ^ " neighbour list differs from the mirror: impl=" ^ show_r gl)
+           | _ -> shape ())
+      | "sort" ->
+          let dom_model = use_model && wfb_now () in
+          let dom_mirror = mir.valid && Hashtbl.length mir.dirty = 0 in
+          if dom_mirror && use_model && not dom_model then
+            mismatch id (here () ^ " a valid, clean operation sequence but wfb = false (contradicts C15_domain_reached: model or mirror wrong)");
+          let mres = match query OSort with Some (RSort x) -> Some x | Some _ -> failwith "sort result" | None -> None in
+          (match tag ob with
+           | "sorted" | "panic" | "nondet" -> ()
+           | _ -> shape ());
+          if not dom_model && not dom_mirror then begin
+            (* outside the property's domain (duplicate edges, unknown endpoints, missing re-index):
+               only the correspondence with the model is checked *)
+            count "sorts_outside_domain";
+            (match mres, tag ob with
+             | None, _ -> count "sorts_outside_domain_unjudged"
+             | Some SortUnspec, _ -> count "sort_unspec"
+             | Some SortPanic, "panic" -> count "sort_panic"
+             | Some (SortOk (ml, mok)), "sorted" ->
+                 if bool_of_sx (List.nth (args ob) 0) <> mok || map_tr to_rank (ints_tr (List.nth (args ob) 1)) <> List.map int_of_z ml
+                 then mismatch id (here () ^ " (outside domain) result differs: model=" ^ show_r (List.map int_of_z ml))
+             | _, "nondet" -> count "sort_nondet_outside_domain"
+             | _ -> mismatch id (here () ^ " (outside domain) result kind differs"))
+          end else begin
+            count "sorts";
+            if not use_model then count "sorts_oracle_only";
+            (match tag ob with
+             | "nondet" ->
+                 let t = string_of_sx ob in
+                 propfail id (here () ^ " Toposort answers differ between runs on equal graphs (same operation sequence): "
+                              ^ (if String.length t > 700 then String.sub t 0 700 ^ "..." else t) ^ names_txt)
+             | "panic" -> propfail id (here () ^ " Toposort panics on a graph of the domain" ^ names_txt)
+             | "sorted" ->
+                 let gok = bool_of_sx (List.nth (args ob) 0) in
+                 let gl = map_tr to_rank (ints_tr (List.nth (args ob) 1)) in
+                 if gok then count "sort_success" else count "sort_failure";
+                 (* acyclicity: the model's answer (C15_success_iff_acyclic) and/or the mirror's Kahn count *)
+                 let acyc_model = match mres with
+                   | Some (SortOk (_, mok)) when dom_model -> Some mok
+                   | Some _ when dom_model -> mismatch id (here () ^ " model result is not SortOk inside the domain"); None
+                   | _ -> None in
+                 let acyc_mirror = if dom_mirror || not use_model then Some (mirror_acyclic mir) else None in
+                 (match acyc_model, acyc_mirror with
+                  | Some a, Some b when a <> b && dom_mirror -> mismatch id (here () ^ " independent acyclicity oracle disagrees with the model")
+                  | _ -> ());
+                 let acyclic = match acyc_model, acyc_mirror with Some a, _ -> a | None, Some b -> b | None, None -> failwith "no judge" in
+                 (* order validity: on the model state's node and edge sets when the model runs, else on the mirror's *)
+                 let valid_order =
+                   if use_model then begin
+                     let edges_iter f = List.iter (fun (n, m) -> List.iter (fun (ch, _) -> f (int_of_z n) (int_of_z ch)) m) !st.outs in
+                     let nodeset = Hashtbl.create 64 in
+                     List.iter (fun (n, _) -> Hashtbl.replace nodeset (int_of_z n) ()) !st.outs;
+                     let v = order_ok_sets (Hashtbl.length nodeset) (Hashtbl.mem nodeset) edges_iter gl in
+                     if dom_mirror && v <> mirror_order_ok mir gl then mismatch id (here () ^ " independent order oracle disagrees with the one on the model state");
+                     v
+                   end else mirror_order_ok mir gl in
+                 if gok && not valid_order then
+                   propfail id (here () ^ " success reported but the order is not a topological order of all nodes: " ^ show_r gl ^ names_txt)
+                 else if gok <> acyclic then
+                   propfail id (here () ^ Printf.sprintf " success=%b but the graph is %s" gok (if acyclic then "acyclic" else "cyclic") ^ names_txt)
+                 else (match mres with
+                   | Some (SortOk (ml, _)) when dom_model ->
+                       (* fine: the deterministic order (ties between ready nodes broken by byte order of the names) *)
+                       let ml = List.map int_of_z ml in
+                       if gl <> ml then mismatch id (here () ^ " order differs: impl=" ^ show_r gl ^ " model=" ^ show_r ml ^ names_txt)
+                   | _ -> ())
+             | _ -> ())
+          end
+      | "cycle" ->
+          let seed = r 0 in
+          (match tag ob with "cycle" -> () | _ -> shape ());
+          if use_model && is_node !st nobody then
+            (* the empty name is FindCycle's sentinel; a graph that has it as a node is outside the domain *)
+            count "cycles_outside_domain"
+          else begin
+            (* C15_cycle_real / C15_cycle_found / C15_cycle_emptiness_any_order hold for every state in which
+               the empty name is not a node (no rank condition), so the oracle is applied there *)
+            count (if not use_model then "cycles_oracle_only" else if wfb_now () then "cycles" else "cycles_dirty_state");
+            let gc = map_tr to_rank (ints_tr (List.hd (args ob))) in
+            let m_empty = match query (OCycle (z seed)) with Some (RCycleEmpty e) -> Some e | Some _ -> failwith "cycle result" | None -> None in
+            let exists_mirror = mirror_cycle_exists mir seed in
+            (match m_empty with
+             | Some e when e = exists_mirror -> mismatch id (here () ^ " independent reachability oracle disagrees with the model on the existence of a cycle through the seed")
+             | _ -> ());
+            let exists = match m_empty with Some e -> not e | None -> exists_mirror in
+            if gc <> [] then begin
+              count "cycle_nonempty";
+              let ok_mirror = mirror_cycle_ok mir seed gc in
+              let ok = if use_model then begin
+                  let v = cycle_ok !st (z seed) (List.map z gc) in
+                  if v <> ok_mirror then mismatch id (here () ^ " independent cycle oracle disagrees with the extracted cycle_ok");
+                  v end else ok_mirror in
+              if not ok then
+                propfail id (here () ^ " FindCycle returned something that is not a cycle through the seed: " ^ show_r gc ^ names_txt)
+              else if not exists then mismatch id (here () ^ " model finds no cycle through the seed but the implementation returned a valid one (contradicts C15_cycle_emptiness_any_order: model unfaithful)")
+            end else if exists then
+              propfail id (here () ^ " a cycle through the seed exists but FindCycle returned nothing" ^ names_txt)
+          end
+      | t -> failwith ("unknown op " ^ t)) ops_sx)
